@@ -76,6 +76,42 @@ func truncatedReplies(r *mrand.Rand, pool *shimsim.Pool) []*shimsim.Plan {
 	return out
 }
 
+// hiddenAndHardware: in no-upstream mode the underlying agent holds a key and, as a separate identity, a YSSHCA
+// certificate over it (hidden from listings); the very same certificate is then accepted as a hardware certificate
+// - before or after a listing has seen it - and must be listed once and sign under the plain key.
+func hiddenAndHardware(r *mrand.Rand, pool *shimsim.Pool, n int) []*shimsim.Plan {
+	var out []*shimsim.Plan
+	op := func(k shimsim.OpKind, b uint64) *shimsim.Op { return &shimsim.Op{Kind: k, Blob: b} }
+	nk := len(pool.Keys)
+	for i := 0; i < n; i++ {
+		k := uint64(1 + r.Intn(nk))
+		p := &shimsim.Plan{Class: "hidden-certificate-also-hardware", NoUp: i%4 != 3, Data: map[uint64][]byte{1: []byte("data-1"), 2: []byte("data-2")}}
+		var t, kk string
+		for {
+			t, kk = shimsim.GenKeyID(r)
+			if kk[:3] == "yss" {
+				break
+			}
+		}
+		y := shimsim.CertSpec{ID: pool.ReserveID(), KeyID: k, Window: core.Pick(r, "current", "forever"), KidText: t, KidKind: kk}
+		p.Certs = []shimsim.CertSpec{y}
+		sign := func(d uint64) *shimsim.Op { return &shimsim.Op{Kind: shimsim.OpSign, Blob: y.ID, DataID: d} }
+		switch i % 3 {
+		case 0: // the certificate is there at construction
+			p.Initial = []uint64{k, y.ID}
+			p.Ops = []*shimsim.Op{op(shimsim.OpAddHard, y.ID), sign(1), op(shimsim.OpList, 0), op(shimsim.OpSigners, 0), op(shimsim.OpRemove, y.ID), op(shimsim.OpList, 0)}
+		case 1: // it arrives later and a listing sees it first
+			p.Initial = []uint64{k}
+			p.Ops = []*shimsim.Op{op(shimsim.OpDirectAdd, y.ID), op(core.Pick(r, shimsim.OpList, shimsim.OpSigners), 0), op(shimsim.OpAddHard, y.ID), sign(1), op(shimsim.OpList, 0), sign(2)}
+		default: // accepted first, seen by a listing afterwards
+			p.Initial = []uint64{k}
+			p.Ops = []*shimsim.Op{op(shimsim.OpDirectAdd, y.ID), op(shimsim.OpAddHard, y.ID), sign(1), op(shimsim.OpSigners, 0), sign(2), op(shimsim.OpList, 0)}
+		}
+		out = append(out, p)
+	}
+	return out
+}
+
 func enumeration(r *mrand.Rand, pool *shimsim.Pool, full bool) []*shimsim.Plan {
 	var out []*shimsim.Plan
 	op := func(k shimsim.OpKind, b uint64) *shimsim.Op { return &shimsim.Op{Kind: k, Blob: b} }
@@ -202,6 +238,7 @@ func run(c *core.Ctx) {
 	plans = append(plans, construction(r, pool)...)
 	plans = append(plans, enumeration(r, pool, c.Tier == "thorough")...)
 	plans = append(plans, truncatedReplies(r, pool)...)
+	plans = append(plans, hiddenAndHardware(r, pool, c.N(12, 120))...)
 	plans = append(plans, shimsim.ScenarioPlans(r, pool, c.N(16, 200))...)
 	for i, n := 0, c.N(60, 1500); i < n; i++ {
 		plans = append(plans, shimsim.GenPlan(r, pool, healthy, "healthy-agent"))
